@@ -1,6 +1,7 @@
 package main
 
 import (
+	"encoding/binary"
 	"fmt"
 	"math/rand"
 	"sync"
@@ -743,8 +744,36 @@ func algoStage() {
 	}
 }
 
+// knownLongExpandS: ML-DSA-65 seeds (little-endian counter, rest zero) for which one ExpandS polynomial needs a third
+// SHAKE256 block (reported by the lead's seeding round); the seeded search below finds further ones.
+var knownLongExpandS = []uint32{0x00022523, 0x0002ded8, 0x0000274f}
+
+// searchedKeyGen: key generation from seeds selected by the XOF consumption of their samplers.
+func searchedKeyGen(out *sink, p pset, r *rand.Rand, full bool) {
+	for _, hh := range searchedSeeds(p, full) {
+		out.Emit(vt.Ev{"ev": "note", "what": "xof-search seed", "set": p.name, "kind": hh.why, "poly": hh.idx, "bytes": hh.bytes, "blocks": blocksOf(hh.bytes, 136), "seed": vt.Hex(hh.seed[:])})
+		newKey(out, p, hh.seed)
+	}
+	if p.name == "65" {
+		for _, c := range knownLongExpandS {
+			var sd [32]byte
+			binary.LittleEndian.PutUint32(sd[:4], c)
+			out.Emit(vt.Ev{"ev": "note", "what": "xof-search seed", "set": p.name, "kind": "known", "poly": -1, "bytes": 0, "blocks": 0, "seed": vt.Hex(sd[:])})
+			newKey(out, p, sd)
+		}
+	}
+	budget := 1500
+	if full {
+		budget = 20000
+	}
+	sd, rej := searchSeedsNTT(p, r, budget)
+	out.Emit(vt.Ev{"ev": "note", "what": "xof-search seed", "set": p.name, "kind": "max-rejntt-rejections", "poly": -1, "bytes": 3 * (256 + rej), "blocks": blocksOf(3*(256+rej), 168), "seed": vt.Hex(sd[:])})
+	newKey(out, p, sd)
+}
+
 func internalRoutes(out *sink, p pset, r *rand.Rand, full bool) {
 	name := p.name
+	searchedKeyGen(out, p, r, full)
 	nKeys, nDet := 2, 1
 	craftIters := 30000
 	if full {
